@@ -90,6 +90,8 @@ impl Selector {
         let epoll = &single_selector.epoll;
 
         // Wait for epoll events for at most timeout_ms milliseconds
+        #[cfg(may_verif)]
+        crate::verif::note("sel.idle", id, 0);
         let n = epoll.wait(events, timeout_ms)?;
         // println!("epoll_wait = {}", n);
 
